@@ -149,7 +149,7 @@ theorem sliceDuring_spec_uniform (a : UAxis) (hdt : 0 < a.dt) (start stop : Int)
     i ∈ slicePos (a.sliceDuring start stop).1 (a.sliceDuring start stop).2 ↔
       i < a.n ∧ start ≤ a.sample i ∧ a.sample i < stop := by
   rw [mem_slicePos]
-  simp only [sliceDuring]
+  simp only [UAxis.sliceDuring]
   constructor
   · rintro ⟨h1, h2⟩
     have hn : i < a.n := lt_of_lt_of_le h2 (edge_le a hdt stop)
@@ -182,7 +182,7 @@ theorem sliceDuringCurrent_partial_uniform (a : UAxis) (hd : a.dur = (a.n : Int)
   have e2 : a.edge stop = a.edgeIn stop := by
     simp [edge, show ¬ stop < a.t0 by omega, show ¬ a.stop ≤ stop by omega]
   simp only [sliceDuringCurrent, indexAtCurrent_partial a hd, indexAt_single a start h1 h2,
-    indexAt_single a stop h3 h4, sliceDuring, e1, e2]
+    indexAt_single a stop h3 h4, UAxis.sliceDuring, e1, e2]
 
 /-! ### arbitrary time arrays: closest / before / after -/
 
@@ -293,6 +293,7 @@ theorem sliceDuringWith_spec (bump : List Int → Nat → Nat) (ts : List Int) (
   cases hA : indexAfter ts start with
   | none =>
     have hall := han.mp hA
+    simp only []
     constructor
     · intro h; omega
     · rintro ⟨h1, h2, _⟩; have := hall i h1; omega
@@ -300,6 +301,7 @@ theorem sliceDuringWith_spec (bump : List Int → Nat → Nat) (ts : List Int) (
     cases hB : indexBefore ts stop with
     | none =>
       have hall := hbn.mp hB
+      simp only []
       constructor
       · intro h; omega
       · rintro ⟨h1, _, h3⟩; have := hall i h1; omega
@@ -459,8 +461,7 @@ theorem array_epochs_equal_duration (s : Series) (e : Epochs) (r : SeriesOut) (h
   · cases h
   · split at h
     · cases h
-    · dsimp only at h
-      split at h
+    · split at h
       · cases h
         rename_i h2 _
         exact ⟨by simpa using h2, rfl⟩
